@@ -362,6 +362,9 @@ func (ex *executor) execCall(st *state, in ssa.Instruction, cc *ssa.CallCommon, 
 				}
 			}
 		}
+		if fname := calledField(cc.Value); fname != "" {
+			ex.atCallObligations(st, "field:"+fname, args, in.Pos())
+		}
 		ex.root().callees["unknown:dynamic"] = true
 		ex.havocAll(st, "dynamic call "+ex.srcText(in.Pos(), ""))
 		setRes(ex.freshResult(st, rt, "r.dyn"))
@@ -396,6 +399,14 @@ func (ex *executor) execCall(st *state, in ssa.Instruction, cc *ssa.CallCommon, 
 		res = ex.applyContract(st, c, key, names, args, callee.Signature.Results(), in.Pos(), c.PkgPath)
 		setRes(res)
 		return
+	}
+	{
+		// call-site assertions also apply to callees without a contract (inlined or unknown)
+		short := shortFnKey(key)
+		if i := strings.LastIndex(short, "/"); i >= 0 {
+			short = short[i+1:]
+		}
+		ex.atCallObligations(st, short, args, in.Pos())
 	}
 	if ex.canInline(callee) {
 		res = ex.inlineCall(st, callee, args, nil, in.Pos())
@@ -455,6 +466,44 @@ func (c *callEff) add(names []string) {
 	}
 }
 
+// atCallObligations: the `atcall <callee> assert` clauses of the function under verification for a call of <callee>
+// (a function or method by its short key, or `field:<name>` for a call through a function-valued struct field).
+func (ex *executor) atCallObligations(st *state, short string, args []Value, pos token.Pos) {
+	r := ex.root()
+	if rc := r.contract; rc != nil && ex == r && len(rc.AtCall[short]) > 0 {
+		for i, ac := range rc.AtCall[short] {
+			av := map[string]Value{}
+			for k, v := range r.params {
+				av[k] = v
+			}
+			for ai, a := range args {
+				av[fmt.Sprintf("callarg%d", ai)] = a
+			}
+			t := r.evalBoolClause(ac, st, r.entry, av)
+			ex.addObligation(st, "atcall", fmt.Sprintf("at call %s: %s", short, clauseLabel(ac, i)), Implies(st.pc, t), pos)
+		}
+	}
+}
+
+// calledField names the struct field a dynamic call goes through (s.processor(...)), or "".
+func calledField(v ssa.Value) string {
+	if u, ok := v.(*ssa.UnOp); ok && u.Op == token.MUL {
+		if fa, ok := u.X.(*ssa.FieldAddr); ok {
+			if st, ok := fa.X.Type().Underlying().(*types.Pointer); ok {
+				if s, ok := st.Elem().Underlying().(*types.Struct); ok {
+					return s.Field(fa.Field).Name()
+				}
+			}
+		}
+	}
+	if f, ok := v.(*ssa.Field); ok {
+		if s, ok := f.X.Type().Underlying().(*types.Struct); ok {
+			return s.Field(f.Field).Name()
+		}
+	}
+	return ""
+}
+
 // applyContract: modular call rule.
 func (ex *executor) applyContract(st *state, c *Contract, key string, names []string, args []Value, results *types.Tuple, pos token.Pos, pkgPath string) Value {
 	r := ex.root()
@@ -483,19 +532,7 @@ func (ex *executor) applyContract(st *state, c *Contract, key string, names []st
 	if i := strings.LastIndex(short, "/"); i >= 0 {
 		short = short[i+1:]
 	}
-	if rc := r.contract; rc != nil && ex == r && len(rc.AtCall[short]) > 0 {
-		for i, ac := range rc.AtCall[short] {
-			av := map[string]Value{}
-			for k, v := range r.params {
-				av[k] = v
-			}
-			for ai, a := range args {
-				av[fmt.Sprintf("callarg%d", ai)] = a
-			}
-			t := r.evalBoolClause(ac, st, r.entry, av)
-			ex.addObligation(st, "atcall", fmt.Sprintf("at call %s: %s", short, clauseLabel(ac, i)), Implies(st.pc, t), pos)
-		}
-	}
+	ex.atCallObligations(st, short, args, pos)
 	for i, rq := range c.Requires {
 		t := ex.evalBoolEnv(rq, env)
 		if rc := r.contract; rc != nil && rc.NoSafety && strings.HasPrefix(rq.Label, "safe-") {
